@@ -200,6 +200,55 @@ impl<const N: usize> Ex<N> {
                         }
                     }
                 }
+                b'r' | b'R' => {
+                    // short-circuiting searches: rfind / find whose predicate accepts the second
+                    // element it sees (try_rfold / try_fold underneath)
+                    let front = w == b'R';
+                    let mut seen = 0usize;
+                    let r = window(|| {
+                        if front {
+                            it.find(|_| {
+                                seen += 1;
+                                seen == 2
+                            })
+                        } else {
+                            it.rfind(|_| {
+                                seen += 1;
+                                seen == 2
+                            })
+                        }
+                    });
+                    self.allocs += crate::alloc::take_op_allocs();
+                    let Some(got) = self.settle(r, false, own) else { break };
+                    let rem = hi - lo;
+                    let want = if rem >= 2 {
+                        if front {
+                            lo += 2;
+                            Some(lo - 1)
+                        } else {
+                            hi -= 2;
+                            Some(hi)
+                        }
+                    } else {
+                        lo = hi;
+                        None
+                    };
+                    let name = if front { "find" } else { "rfind" };
+                    match (got, want) {
+                        (None, None) => {
+                            let _ = write!(self.trace.line(), " {}-", w as char);
+                        }
+                        (Some(item), p) => {
+                            if p.is_none() {
+                                self.fail(own, format!("{name} returned an item although fewer than two elements were left"));
+                            }
+                            on_item(self, item, p);
+                        }
+                        (None, Some(p)) => {
+                            self.fail(own, format!("{name} returned None but position {} of the selection (id={}) matches", p, exp[p].0));
+                        }
+                    }
+                }
                 other => extra(self, it, other, lo, hi),
             }
         }
@@ -376,7 +425,7 @@ impl<const N: usize> Ex<N> {
             let own = out.own;
             let expr = &exp;
             let addrs = &addrs;
-            self.run_word(
+            let (lo, hi) = self.run_word(
                 &mut it,
                 &st.word,
                 &exp,
@@ -415,6 +464,21 @@ impl<const N: usize> Ex<N> {
                     _ => {}
                 },
             );
+            if self.fail.is_none() && self.faulted.is_none() && st.a % 3 != 0 {
+                // consume the rest through internal iteration: fold (front to back) or rfold
+                let rev = st.a % 3 == 2;
+                let r = window(move || if rev { it.rfold(Vec::new(), |mut v, t| { v.push(t.id); v }) } else { it.fold(Vec::new(), |mut v, t| { v.push(t.id); v }) });
+                let _ = crate::alloc::take_op_allocs();
+                if let Some(got) = self.settle(r, false, own) {
+                    let mut want: Vec<u32> = exp[lo..hi].iter().map(|e| e.0).collect();
+                    if rev {
+                        want.reverse();
+                    }
+                    if got != want {
+                        self.fail(own, format!("{} over the rest of the iterator visited {got:?}, expected {want:?}", if rev { "rfold" } else { "fold" }));
+                    }
+                }
+            }
         }
         self.bufs[x] = Some(bx);
         out
@@ -448,7 +512,7 @@ impl<const N: usize> Ex<N> {
             let expr = &exp;
             let addrs = &addrs;
             let mut held: Vec<(usize, &mut Tracked)> = Vec::new();
-            {
+            let (lo2, hi2) = {
                 let held_ref = &mut held;
                 self.run_word(
                     &mut it,
@@ -477,7 +541,21 @@ impl<const N: usize> Ex<N> {
                             }
                         }
                     },
-                );
+                )
+            };
+            if self.fail.is_none() && self.faulted.is_none() && st.a % 3 != 0 {
+                let rev = st.a % 3 == 2;
+                let r = window(move || if rev { it.rfold(Vec::new(), |mut v, t| { v.push(t.id); v }) } else { it.fold(Vec::new(), |mut v, t| { v.push(t.id); v }) });
+                let _ = crate::alloc::take_op_allocs();
+                if let Some(got) = self.settle(r, false, own) {
+                    let mut want: Vec<u32> = exp[lo2..hi2].iter().map(|e| e.0).collect();
+                    if rev {
+                        want.reverse();
+                    }
+                    if got != want {
+                        self.fail(own, format!("{} over the rest of the mutable iterator visited {got:?}, expected {want:?}", if rev { "rfold" } else { "fold" }));
+                    }
+                }
             }
             // all yielded references are alive together: write through every second one
             if self.fail.is_none() && self.faulted.is_none() {
@@ -592,6 +670,34 @@ impl<const N: usize> Ex<N> {
                         self.bufs[x] = Some(Box::new(nb));
                         self.models[x] = exp[lo..hi].iter().copied().collect();
                         return out;
+                    }
+                }
+                2 => {
+                    // internal iteration with a user closure (for_each / fold); the closure may
+                    // carry a planned ClosurePanic
+                    let sink: std::rc::Rc<std::cell::RefCell<Vec<Tracked>>> = Default::default();
+                    let s2 = sink.clone();
+                    let r = window(move || {
+                        it.fold(0usize, |n, t| {
+                            let _h = crate::elem::HookScope::enter();
+                            crate::elem::user_code_tick(crate::elem::FaultKind::Closure);
+                            s2.borrow_mut().push(t);
+                            n + 1
+                        })
+                    });
+                    self.allocs += crate::alloc::take_op_allocs();
+                    let got: Vec<Tracked> = std::mem::take(&mut *sink.borrow_mut());
+                    let ids: Vec<u32> = got.iter().map(|t| t.id).collect();
+                    let settled = self.settle(r, false, own);
+                    if settled.is_some() {
+                        let want: Vec<u32> = exp[lo..hi].iter().map(|e| e.0).collect();
+                        if ids != want {
+                            self.fail(own, format!("fold over the owning iterator visited {ids:?}, the remaining elements are {want:?}"));
+                        }
+                    }
+                    for t in got {
+                        self.check_returned(&t, own);
+                        self.adopt(t);
                     }
                 }
                 _ => {
